@@ -1018,6 +1018,11 @@ def rule_pool_joins(ctx, rid, r):
         ok = not j.args and not j.keywords
         ctx.ob(rid, f"{pool.short}/join-no-timeout", ok, loc(pool, j), "join() without timeout" if ok else
                "join with a timeout can return while the worker still runs", norm(j))
+        guards = [p for t in tries for p in ast.walk(t) if isinstance(p, ast.If) and in_body(mod, p, t, "finalbody") and inside(mod, j, p)]
+        ctx.ob(rid, f"{pool.short}/join-unconditional", not guards, loc(pool, j),
+               "the join in the finally is unconditional" if not guards else
+               f"the join is skipped under `if {norm(guards[0].test)[:40]}`: on that path (e.g. KeyboardInterrupt) run returns while calls "
+               f"and store writes are still in flight", head(guards[0]) if guards else "")
         # the loop joins every element of the list that every started thread was appended to
         fl = [n for n in pool.own_nodes() if isinstance(n, ast.For) and inside(mod, j, n)]
         ok = False
